@@ -1,16 +1,20 @@
 package main
 
 import (
+	"context"
 	"fmt"
 	"math/rand"
 	"strings"
 
+	"github.com/inspirer/textmapper/compiler"
+	"github.com/inspirer/textmapper/grammar"
 	"github.com/inspirer/textmapper/lalr"
 	"verif/harness/sx"
 )
 
 func init() {
 	commands["c01.random"] = c01Random
+	commands["c01.tables"] = c01Tables
 }
 
 type tmOpts struct {
@@ -34,9 +38,7 @@ func (g *cfg) toTM(name string, o tmOpts, ruleSuffix func(i int) string) string 
 	if o.minimize {
 		sb.WriteString("minimizeDFA = true\n")
 	}
-	if o.eventBased {
-		sb.WriteString("eventBased = true\n")
-	}
+	sb.WriteString("eventBased = true\n")
 	for _, l := range o.extra {
 		sb.WriteString(l + "\n")
 	}
@@ -173,14 +175,37 @@ func tablesOf(t *lalr.Tables) string {
 	if t.Optimized != nil {
 		opt = sx.List(dispEncStr(t.Optimized))
 	}
-	return sx.List(defaultEncStr(t.DefaultEnc), opt, sx.Ints(t.RuleLen), sx.Ints(t.RuleSymbol), sx.Ints(t.FinalStates))
+	return sx.List(defaultEncStr(t.DefaultEnc), opt, sx.Ints(t.RuleLen), sx.Ints(t.RuleSymbol), sx.Ints(t.FinalStates), sx.Int(t.NumStates))
 }
 
+// tmGrammarStr serialises the grammar textmapper's compiler handed to lalr (its own symbol numbering).
+func tmGrammarStr(g *grammar.Grammar) string {
+	p := g.Parser
+	rs := make([]string, len(p.Rules))
+	for i, r := range p.Rules {
+		rhs := make([]int, 0, len(r.RHS))
+		for _, s := range r.RHS {
+			rhs = append(rhs, int(s))
+		}
+		rs[i] = sx.List(sx.Int(int(r.LHS)), sx.Ints(rhs), sx.Int(int(r.Precedence)))
+	}
+	ins := make([]string, len(p.Inputs))
+	for i, in := range p.Inputs {
+		ins[i] = sx.List(sx.Int(p.NumTerminals+in.Nonterm), sx.Bool(!in.NoEoi))
+	}
+	return sx.List(sx.Int(p.NumTerminals), sx.Int(len(g.Syms)-p.NumTerminals), sx.List(rs...), sx.List(ins...), "()")
+}
+
+// plainDriver: VerifRun(mode, input); mode = "<input index>" or "<input index>e" (append the listener events).
+// All generated test grammars are event-based: the pinned templates reference NodeType from
+// parser_tables.go unconditionally, so a non-event-based Go grammar does not build (outside C01).
 func plainDriver(g *cfg) func(p *genPkg) string {
 	return func(p *genPkg) string {
 		var sb strings.Builder
-		fmt.Fprintf(&sb, "package %s\n\nimport \"fmt\"\n\nfunc VerifRun(mode string, input []byte) string {\n", p.name)
-		sb.WriteString("\tvar l Lexer\n\tl.Init(string(input))\n\tvar p Parser\n\tp.Init()\n\tvar err error\n\tswitch mode {\n")
+		fmt.Fprintf(&sb, "package %s\n\nimport (\n\t\"fmt\"\n\t\"strings\"\n)\n\nfunc VerifRun(mode string, input []byte) string {\n", p.name)
+		sb.WriteString("\tvar l Lexer\n\tl.Init(string(input))\n\tvar p Parser\n\tvar ev strings.Builder\n")
+		sb.WriteString("\tp.Init(func(t NodeType, offset, endoffset int) { fmt.Fprintf(&ev, \" (%d %d %d)\", int(t), offset, endoffset) })\n")
+		sb.WriteString("\twantEvents := strings.HasSuffix(mode, \"e\")\n\tmode = strings.TrimSuffix(mode, \"e\")\n\tvar err error\n\tswitch mode {\n")
 		for i, in := range g.inputs {
 			fn := "Parse"
 			if len(g.inputs) > 1 {
@@ -188,8 +213,9 @@ func plainDriver(g *cfg) func(p *genPkg) string {
 			}
 			fmt.Fprintf(&sb, "\tcase \"%d\":\n\t\terr = p.%s(&l)\n", i, fn)
 		}
-		sb.WriteString("\t}\n\tif err == nil {\n\t\tconsumed := p.next.offset\n\t\tif p.next.symbol == noToken {\n\t\t\t_, consumed = l.Pos()\n\t\t}\n\t\treturn fmt.Sprintf(\"(accept %d)\", consumed)\n\t}\n")
-		sb.WriteString("\tif se, ok := err.(SyntaxError); ok {\n\t\treturn fmt.Sprintf(\"(syntax %d %d)\", se.Offset, se.Endoffset)\n\t}\n\treturn \"(other)\"\n}\n")
+		sb.WriteString("\t}\n\tevs := \"\"\n\tif wantEvents {\n\t\tevs = \" (events\" + ev.String() + \")\"\n\t}\n")
+		sb.WriteString("\tif err == nil {\n\t\tconsumed := p.next.offset\n\t\tif p.next.symbol == noToken {\n\t\t\t_, consumed = l.Pos()\n\t\t}\n\t\treturn fmt.Sprintf(\"(accept %d%s)\", consumed, evs)\n\t}\n")
+		sb.WriteString("\tif se, ok := err.(SyntaxError); ok {\n\t\treturn fmt.Sprintf(\"(syntax %d %d%s)\", se.Offset, se.Endoffset, evs)\n\t}\n\treturn \"(other)\"\n}\n")
 		return sb.String()
 	}
 }
@@ -249,7 +275,7 @@ func c01Random(rng *rand.Rand, n int, args []string) {
 		}
 		g := grammars[i]
 		for idx, in := range g.inputs {
-			strs := g.sampleInputs(rng, in.nt, 25)
+			strs := capLen(g.sampleInputs(rng, in.nt, 25), 16)
 			if g.nterms <= 3 {
 				strs = append(strs, allStrings(g.nterms, 5)...)
 			} else {
@@ -279,6 +305,20 @@ func c01Random(rng *rand.Rand, n int, args []string) {
 			continue
 		}
 		compiled++
+		// the tables the generated parser embeds, validated against the grammar handed to lalr
+		// (minimized tables merge states with different item sets: the unminimized compile is validated)
+		vg := p.g
+		if opts[i].minimize {
+			o2 := opts[i]
+			o2.minimize = false
+			g2, err := compiler.Compile(context.Background(), p.name+".tm", grammars[i].toTM(p.name, o2, nil), compiler.Params{})
+			if err != nil {
+				continue
+			}
+			vg = g2
+		}
+		sx.Case("c01.validate", sx.List(tmGrammarStr(vg), tablesOf(vg.Parser.Tables)), "validated")
+		sx.Stat(fmt.Sprintf("opts_opt%v_dr%v_min%v", opts[i].optimize, opts[i].defaultReduce, opts[i].minimize), 1)
 	}
 	for _, b := range batches {
 		p := pkgs[b.pkg]
@@ -293,10 +333,71 @@ func c01Random(rng *rand.Rand, n int, args []string) {
 			toks[j] = sx.Ints(s)
 			outs[j] = answers[b.first+j]
 		}
-		in := sx.List(g.cfgStr(), sx.Int(b.input), sx.List(sx.Bool(o.optimize), sx.Bool(o.defaultReduce), sx.Bool(o.minimize)),
-			tablesOf(p.g.Parser.Tables), sx.List(toks...))
+		_ = o
+		tmap := make([]int, g.nterms)
+		for t := 1; t < g.nterms; t++ {
+			tmap[t] = -1
+			for _, sym := range p.g.Syms {
+				if sym.Name == fmt.Sprintf("'%c'", g.termChar(t)) {
+					tmap[t] = sym.Index
+				}
+			}
+		}
+		in := sx.List(g.cfgStr(), sx.Int(b.input), tmGrammarStr(p.g), tablesOf(p.g.Parser.Tables), sx.Ints(tmap), sx.List(toks...))
 		sx.Case("c01.parse", in, sx.List(outs...))
 	}
 	sx.Stat("grammars_tried", tried)
 	sx.Stat("grammars_compiled", compiled)
+}
+
+// c01Tables: table-level run (no generated code): lalr.Compile on random conflict-free grammars, with and
+// without Optimize; the model validates the tables and runs the loop model on sampled and exhaustive strings.
+func c01Tables(rng *rand.Rand, n int, args []string) {
+	tried, done := 0, 0
+	for done < n && tried < 60*n {
+		tried++
+		k := defaultKnobs
+		if rng.Intn(3) == 0 {
+			k.emptyProb = 35
+		}
+		g := genCFG(rng, k).reduced()
+		if g == nil || len(g.rules) == 0 {
+			continue
+		}
+		opt := rng.Intn(2) == 0
+		dr := opt && rng.Intn(2) == 0
+		t, err := lalr.Compile(g.toLalr(), lalr.Options{Optimize: opt, DefaultReduce: dr})
+		if err != nil || t == nil || t.SR+t.RR > 0 {
+			continue
+		}
+		done++
+		var batches []string
+		for idx, in := range g.inputs {
+			strs := capLen(g.sampleInputs(rng, in.nt, 12), 14)
+			if g.nterms <= 3 {
+				strs = append(strs, allStrings(g.nterms, 4)...)
+			} else {
+				strs = append(strs, allStrings(g.nterms, 2)...)
+			}
+			toks := make([]string, len(strs))
+			for j, s := range strs {
+				toks[j] = sx.Ints(s)
+			}
+			batches = append(batches, sx.List(sx.Int(idx), sx.List(toks...)))
+		}
+		sx.Case("c01.tables", sx.List(g.cfgStr(), tablesOf(t), sx.List(batches...)), "validated")
+		sx.Stat(fmt.Sprintf("tables_opt%v_dr%v", opt, dr), 1)
+		sx.Stat(fmt.Sprintf("tables_nonterms_%d", g.nnonterms), 1)
+	}
+	sx.Stat("tables_grammars_tried", tried)
+}
+
+// capLen truncates token strings (the chart recognisers of the oracle are polynomial of high degree).
+func capLen(strs [][]int, n int) [][]int {
+	for i, s := range strs {
+		if len(s) > n {
+			strs[i] = s[:n]
+		}
+	}
+	return strs
 }
